@@ -115,6 +115,8 @@ class StubCompressor(Native):
     def compress(self, eng, fd, fp, crc=0):
         if getattr(fd, "fail", None) == "before":
             raise ModelRaise("OSError", ["source unreadable"], cls=OSError)
+        if getattr(fd, "fail", None) == "before_valueerror":
+            raise ModelRaise("ValueError", ["read of closed file"], cls=ValueError)
         from vf.pysym.values import SFile
 
         if isinstance(fd, SFile):  # link target text built by Worker.write
